@@ -22,7 +22,7 @@ from xsdata.formats.dataclass.serializers import DictEncoder
 from .. import roundtrip_bind as rb
 from .. import rt_engine as rt
 
-FAULTS = ("none", "unknownFirst", "unknownLast", "unknownAttr", "xsiAttr", "badValue")
+FAULTS = ("none", "unknownFirst", "unknownLast", "siblingInWrapper", "unknownAttr", "xsiAttr", "badValue")
 INVS = ("InvSlots", "InvStrictUnknown", "InvUnknownAttr", "InvXsiAttr", "InvBadValue", "InvValidAccepted")
 
 
@@ -41,7 +41,7 @@ def check_case(ctx, case):
         if fault in ("none", "xsiAttr"):
             if out[0] != "ok" or out[1] != base:
                 ctx.violation(f"{fault}: expected the plain object, got {repr(out[1])[:200]}", info)
-        elif fault in ("unknownFirst", "unknownLast"):
+        elif fault in ("unknownFirst", "unknownLast", "siblingInWrapper"):
             if cfg["unknownProps"]:
                 if out[0] != "exc" or not isinstance(out[1], ParserError):
                     ctx.violation(f"unknown element with fail_on_unknown_properties: expected ParserError, got {repr(out[1])[:200]}", info)
@@ -126,6 +126,9 @@ def run(ctx):
     cases = rt.generate(ctx, label="Gen_RoundTrip injections 1 field", max_fields=1, faults=FAULTS, cfgs="AllCfgs", limit=ctx.pick(3000, None))
     cases += rt.generate(ctx, label="Gen_RoundTrip injections 2 fields (simulate)", max_fields=2, faults=FAULTS, cfgs="AllCfgs",
                          simulate=ctx.pick(600, 20000))
+    # models that pair a wrapper field with unwrapped element fields: exhaustive, 2 fields
+    cases += rt.generate(ctx, label="Gen_RoundTrip wrapper siblings (2 fields, exhaustive)", max_fields=2, faults=("siblingInWrapper",),
+                         cfgs="AllCfgs", cats="{1, 2, 3, 4, 6, 11, 12, 13}", limit=ctx.pick(1500, None))
     for case in cases:
         check_case(ctx, case)
     dict_options(ctx, cases)
